@@ -26,12 +26,19 @@ class Plan:
         toks = list(args)
         if searchmoves:
             toks += ['searchmoves'] + list(searchmoves)
-        if interrupt:
+        if interrupt and interrupt[0] == 'midgo':
+            # ('midgo', n, [messages waiting behind the go])
+            self.cmds.append(['midgo', str(interrupt[1]), ','.join(interrupt[2]) or '-'] + toks)
+            cut = any(m in ('stop', 'quit') for m in interrupt[2])
+        elif interrupt:
             self.cmds.append([interrupt[0], str(interrupt[1])] + toks)
+            cut = True
         else:
             self.cmds.append(['go'] + toks)
-        self.meta.append({'kind': 'go', 'pidx': self.cur, 'searchmoves': list(searchmoves) if searchmoves else None, 'dense_poll': self.dense,
-                          'depth': int(args[args.index('depth') + 1]) if 'depth' in args else None, 'interrupted': bool(interrupt)})
+            cut = False
+        self.meta.append({'kind': 'go', 'pidx': self.cur, 'searchmoves': list(searchmoves) if searchmoves else None,
+                          'dense_poll': self.dense or bool(interrupt),
+                          'depth': int(args[args.index('depth') + 1]) if 'depth' in args else None, 'interrupted': cut})
 
     def simple(self, *toks):
         if toks[0] == 'poll':
@@ -176,6 +183,8 @@ def sessions_agree(model_ans, impl_ans):
     if len(m) != len(i):
         return False
     for a, b in zip(m, i):
+        if b.startswith('T:') or b == 'T-':
+            continue        # transposition-table read-back: judged by tt_post / tt_presence_post, not part of the model's answer
         ta, tb = a.split(' '), b.split(' ')
         if any(t.startswith('D:') or t.startswith('B:') for t in ta + tb):
             # depth -> score of the completed iterations (an aborted iteration repeats the previous depth and score)
@@ -198,6 +207,19 @@ def sessions_agree(model_ans, impl_ans):
 
 def build_cases(ctx, plans, table):
     table.resolve()
+    follow = [pl for pl in plans if getattr(pl, 'follow', False)]
+    if follow:
+        # second leg of the descending-depth sessions: a position in the tree of the one searched before
+        for pl in follow:
+            legal = table.legal[pl.cur] if pl.cur is not None else None
+            if legal:
+                root, moves = table.keys[pl.cur]
+                m = ctx.rng.pick(legal)
+                idx = table.add(root, list(moves) + [m])
+                pl.pos(root, list(moves) + [m], idx)
+                pl.go(['depth', '1'])
+                pl.go(['depth', '2'])
+        table.resolve()
     resolve_searchmoves(ctx, plans, table)
     cases = []
     for pl in plans:
@@ -275,7 +297,11 @@ def limits_stream(ctx, plans, table, n):
            ['wtime', '60000', 'btime', '60000', 'winc', '0', 'binc', '0'], ['wtime', '1', 'btime', '1'],
            ['wtime', '1000', 'btime', '1000', 'winc', '10', 'binc', '10'], ['wtime', '30000', 'btime', '5', 'winc', '500', 'binc', '0', 'movestogo', '10'],
            ['depth', '2', 'nodes', '10', 'mate', '3'], ['binc', '100', 'winc', '100', 'btime', '15000', 'wtime', '15000', 'depth', '3'],
-           ['ponder', 'depth', '1'], ['movetime', '5', 'depth', '3']]
+           ['ponder', 'depth', '1'], ['movetime', '5', 'depth', '3'],
+           # the mover's clock is smaller than the increment-derived budget (factors 0.25 / 0.5 / 0.75 / 1 of the increment)
+           ['wtime', '300', 'btime', '300', 'winc', '2000', 'binc', '2000'], ['wtime', '40', 'btime', '40', 'winc', '1000', 'binc', '1000'],
+           ['wtime', '2500', 'btime', '2500', 'winc', '6000', 'binc', '6000'], ['wtime', '11000', 'btime', '11000', 'winc', '16000', 'binc', '16000'],
+           ['wtime', '0', 'btime', '0', 'winc', '50', 'binc', '50'], ['wtime', '21000', 'btime', '21000', 'winc', '22000', 'binc', '22000', 'depth', '2']]
     for i, p in enumerate(pos):
         pl = Plan('limits')
         pl.simple('clock', ctx.rng.pick(['200000', '1000000', '5000000', '1000000']))
@@ -344,6 +370,83 @@ def interrupt_stream(ctx, plans, table, npos, maxn):
         plans.append(pl)
 
 
+def pending_stream(ctx, plans, table, n):
+    """messages of every kind waiting in the channel behind a go (ucinewgame, debug, ponderhit, a position command, stop,
+    quit, in any order): what the search consumes at its first poll must not disturb the running search (node/time/depth
+    monotone, one bestmove, board kept), what it leaves is handled by idle"""
+    pos = pick_positions(ctx, n) + [START]
+    alt = pick_positions(ctx, 5)
+    kinds = ['new', 'debugon', 'debugoff', 'ponderhit', 'new', 'new']
+    for p in pos:
+        idx = table.add(p, [])
+        for _ in range(3):
+            pl = Plan('pending-messages')
+            pl.pos(p, [], idx)
+            pl.go(['depth', ctx.rng.pick(['1', '2'])])          # state from an earlier search (PV, killers, metrics)
+            msgs = [ctx.rng.pick(kinds) for _ in range(1 + ctx.rng.below(3))]
+            withpos = ctx.rng.chance(1, 4)
+            if withpos:
+                msgs.insert(ctx.rng.below(len(msgs) + 1), 'pos=' + ctx.rng.pick(alt))
+            end = ctx.rng.pick(['stop', 'stop', 'none', 'quit'])
+            if end != 'none':
+                msgs.append(end)
+                if ctx.rng.chance(1, 3):
+                    msgs.append(ctx.rng.pick(kinds))
+            n_poll = 1 + ctx.rng.below(120)
+            pl.go(['depth', ctx.rng.pick(['2', '3'])] if end == 'none' else ['infinite'], interrupt=('midgo', n_poll, msgs))
+            if end != 'quit':
+                if withpos:
+                    pl.cur = None       # the position message may have been left to idle: no legality oracle, model comparison only
+                pl.simple('board')
+                pl.go(['depth', '1'])
+                pl.go(['depth', '2'])
+            plans.append(pl)
+
+
+def refen_stream(ctx, plans, table, n):
+    """C10: the same game handed over twice in one session — first as a move list, then (as GUIs do) as the FEN of a later
+    position with its true clocks plus the remaining moves.  Only the history supplied with the LAST position command counts:
+    hashes recorded for the first command lie inside the half-move window of the second and must not be counted."""
+    lines = core.model_gen(['repgames', ctx.seed + 17, n])
+    contempt = gen_int('contempt')
+    nthree = nfresh = 0
+    for l in lines:
+        toks = l.split(' ')
+        bar = toks.index('|')
+        root, prefix, cyc = toks[1], toks[2:bar], toks[bar + 1:]
+        full = prefix + cyc * 3
+        for rep in range(2):
+            k1 = len(prefix) + len(cyc) * ctx.rng.pick([1, 2]) + ctx.rng.below(len(cyc))
+            j = len(prefix) + ctx.rng.below(k1 - len(prefix) + 1)          # FEN taken at ply j (inside the reversible stretch)
+            k2 = min(j + ctx.rng.below(2 * len(cyc)), len(full) - 1)
+            a = core.run_model(['spec:makeall %s %s' % (root, ' '.join(core.hex_token(m) for m in full[:j]))])[0]
+            if not a.startswith('ok '):
+                continue
+            fenj = a[3:]
+            if int(fenj.split('_')[4]) == 0:
+                continue
+            keys = position_keys(fenj, full[j:k2 + 1])
+            pl = Plan('history-of-last-position-command-only')
+            idx1 = table.add(root, full[:k1])
+            pl.pos(root, full[:k1], idx1)
+            pl.go(['depth', '1'])
+            if ctx.rng.chance(1, 2):
+                pl.simple('new')
+            idx2 = table.add(fenj, full[j:k2])
+            pl.pos(fenj, full[j:k2], idx2)
+            pl.go(['depth', '1', 'searchmoves', full[k2]])
+            pl.meta[-1]['searchmoves'] = [full[k2]]
+            after = keys[-1]
+            if after is not None and keys.count(after) >= 3:
+                pl.meta[-1]['expect_score'] = 'cp%d' % contempt
+                nthree += 1
+            else:
+                pl.meta[-1]['fresh_value'] = True      # valued by the verified evaluator (no repetition in THIS history)
+                nfresh += 1
+            plans.append(pl)
+    ctx.notes.append('re-sent-FEN sessions: %d with a threefold inside the second history, %d without (score must be the minimax value)' % (nthree, nfresh))
+
+
 def depth_stream(ctx, plans, table, n, stream='fixed-depth'):
     pos = pick_positions(ctx, n)
     for p in pos:
@@ -352,6 +455,82 @@ def depth_stream(ctx, plans, table, n, stream='fixed-depth'):
         pl.pos(p, [], idx)
         pl.go(['depth', ctx.rng.pick(['1', '2', '3', '3'])])
         plans.append(pl)
+
+
+def descending_stream(ctx, plans, table, n):
+    """C08: the exact value of depth d must not depend on what an EARLIER search of the same engine instance left behind
+    (table, killers, PV): deeper search first, then shallower ones of the same position and of a position in its tree"""
+    pos = pick_positions(ctx, n)
+    for p in pos:
+        idx = table.add(p, [])
+        pl = Plan('descending-depth')
+        pl.pos(p, [], idx)
+        for d in ctx.rng.pick([['3', '1', '2'], ['3', '2', '1'], ['2', '1'], ['3', '1']]):
+            pl.go(['depth', d])
+        pl.follow = True        # build_cases appends `pos p <legal move>; go depth 1; go depth 2` once legal moves are known
+        plans.append(pl)
+
+
+def Plan_badpos(pl, root, moves):
+    """a position command the engine rejects (its move list contains an illegal move): the held position must stay"""
+    pl.cmds.append(['pos', root] + list(moves))
+    pl.meta.append({'kind': 'badpos'})
+
+
+def rejected_position_stream(ctx, plans, table, n):
+    """a rejected `position` command (illegal move in its list) must leave position, history AND the hashes the search
+    threads down the tree untouched: board read-back, search result, and the transposition table read back through the hook
+    (`tt`: entries are looked up under the RECOMPUTED hash of the held position and its successors)"""
+    gs = games(ctx, n, 12)
+    for g in gs:
+        root, moves = g[0], g[1:]
+        if len(moves) < 4:
+            continue
+        k = 1 + ctx.rng.below(len(moves) - 2)
+        idx = table.add(root, moves[:k])
+        pl = Plan('rejected-position')
+        if ctx.rng.chance(1, 2):
+            pl.simple('new')
+        pl.pos(root, moves[:k], idx)
+        bad = ctx.rng.pick(['a1a1', 'e2e5', 'h7h1', 'b8b1q', 'zzzz'])
+        variant = ctx.rng.below(3)
+        if variant == 0:      # rejected at the first move
+            Plan_badpos(pl, root, [bad])
+        elif variant == 1:    # a legal prefix longer than the held line, then an illegal move
+            Plan_badpos(pl, root, moves[:min(k + 2, len(moves))] + [bad])
+        else:                 # another root, legal prefix, illegal move
+            other = ctx.rng.pick(gs)
+            Plan_badpos(pl, other[0], list(other[1:1 + ctx.rng.below(3)]) + [bad])
+        pl.simple('board')
+        pl.go(['depth', '2'])
+        pl.meta[-1]['fresh_value'] = True
+        pl.simple('tt', '1')
+        plans.append(pl)
+
+
+def tt_presence_post(ctx, cases, impl):
+    """after `go depth 2` with a centipawn score the table must hold the root under the hash recomputed from the held
+    position (the search stores every completed non-mate node under the hash it threads down the tree)"""
+    vs = []
+    n = 0
+    for c, a in zip(cases, impl):
+        if c.stream != 'rejected-position':
+            continue
+        parts = a.split(' ; ')
+        goparts = [p for p in parts if ' B:' in p or p.startswith('B:')]
+        if not goparts or not parts[-1].startswith('T'):
+            continue
+        infos, bests = parse_go_answer(goparts[-1].split(' '))
+        scored = [i for i in infos if i['depth'] == 2 and i['score'].startswith('cp')]
+        if not scored or not bests or bests[0][0] == '0000':
+            continue
+        n += 1
+        ents = [t.split(':') for t in parts[-1].split(' ') if t.startswith('T:')]
+        if not any(e[1] == '-' for e in ents):
+            vs.append({'kind': 'property', 'stream': c.stream, 'op': 'session', 'input': c.req, 'impl_output': parts[-1][:300],
+                       'why': 'after a completed depth-2 search the transposition table holds no entry under the recomputed hash of the searched position: the hash the search threads down the tree is not the hash of the position'})
+    ctx.notes.append('table presence of the root under its recomputed hash checked after %d searches' % n)
+    return vs
 
 
 def mate_stream(ctx, plans, table):
@@ -569,6 +748,9 @@ def flip_stream(ctx, plans, table, n):
             plans.append(pl)
 
 
+MINIMAX_STREAMS = ('fixed-depth', 'forced-mates', 'descending-depth')
+
+
 def minimax_post(plans_ref):
     """C08: the score reported for every completed depth d <= 3 (and for the mate corpus up to depth 5) must equal the
     value of the VERIFIED evaluator (alpha-beta proved equal to minimax, Props/C08.lean), and the best move must attain it"""
@@ -579,13 +761,15 @@ def minimax_post(plans_ref):
         reqs, owners = [], []
         for c, a in zip(cases, impl):
             pl = plans.get(c.req)
-            if pl is None or pl.stream not in ('fixed-depth', 'forced-mates'):
+            if pl is None or not (pl.stream in MINIMAX_STREAMS or any(m.get('fresh_value') for m in pl.meta)):
                 continue
             parts = a.split(' ; ')
             if len(parts) != len(pl.cmds):
                 continue
             for part, meta in zip(parts, pl.meta):
                 if meta['kind'] != 'go' or meta['pidx'] is None or table.fen[meta['pidx']] is None or meta['depth'] is None:
+                    continue
+                if pl.stream not in MINIMAX_STREAMS and not meta.get('fresh_value'):
                     continue
                 infos, bests = parse_go_answer(part.split(' '))
                 limit = 5 if pl.stream == 'forced-mates' else 3
@@ -960,7 +1144,7 @@ def make_prop(streams, binary_sessions=None, extra_post=None, minimax=False):
         vs = engine_post(state['plans'], state['table'])(ctx, cs, impl)
         if extra_post:
             vs += extra_post(ctx, cs, impl)
-        if minimax:
+        if minimax or any(m.get('fresh_value') for pl in state['plans'] for m in pl.meta):
             vs += minimax_post(state)(ctx, cs, impl)
         if binary_sessions:
             bvs, st = binary_cases(ctx, binary_sessions(ctx))
@@ -977,35 +1161,48 @@ def register(PROPS):
                             lambda c, pl, t: repetition_stream(c, pl, t, c.scale(10, 200)),
                             lambda c, pl, t: multi_cycle_stream(c, pl, t, c.scale(25, 600)),
                             lambda c, pl, t: terminal_after_search_stream(c, pl, t, c.scale(20, 400)),
-                            lambda c, pl, t: promotion_stream(c, pl, t, c.scale(20, 400))],
+                            lambda c, pl, t: promotion_stream(c, pl, t, c.scale(20, 400)),
+                            lambda c, pl, t: pending_stream(c, pl, t, c.scale(12, 200)),
+                            lambda c, pl, t: rejected_position_stream(c, pl, t, c.scale(15, 300))],
                            binary_sessions=lambda c: c.scale(12, 300))
     PROPS['C07'] = dict(modules=['Inkayaku.Props.C07', 'Inkayaku.Props.C07Final'], theorems=['Inkayaku.C07.' + n for n in 'go_exactly_one_bestmove bestmove_legal every_iteration_legal root_move_from_buffer nolegal_null depth1_not_interrupted depth1_completes go_answers_legal_move genPseudo_length_lt'.split()] + ['Inkayaku.Search.boardLaws'], cases=c07c, post=c07p, anchors=ENGINE_ANCHORS)
     c08c, c08p = make_prop([lambda c, pl, t: depth_stream(c, pl, t, c.scale(150, 4000)), mate_stream,
                             lambda c, pl, t: mate_corpus_stream(c, pl, t, c.scale(120, 1000)),
                             lambda c, pl, t: mated_corpus_stream(c, pl, t, c.scale(60, 1000)),
                             lambda c, pl, t: tt_stream(c, pl, t, c.scale(40, 600)),
-                            lambda c, pl, t: multi_cycle_stream(c, pl, t, c.scale(10, 300))], minimax=True, extra_post=tt_post())
-    PROPS['C08'] = dict(modules=['Inkayaku.Props.C08', 'Inkayaku.Props.C08Sim', 'Inkayaku.Props.C16Pv'], theorems=['Inkayaku.C08Sim.' + n for n in 'quiescence_sim repetition_inert fuel_adequate negamax_node_sim negamax_eq_spec go_eq_spec go_eq_spec_le2'.split()] + ['Inkayaku.C16Pv.mate_pv'] + ['Inkayaku.C08.' + n for n in 'quiescence_clamp quiescence_ok ab_ok root_exact order_irrelevant best_move_optimal ab_tt_ok root_exact_tt engine_order_is_permutation search_eq_mm specValue_eq_mm specValue_order_irrelevant specBestMoves_eq_optimal search_best_move_optimal mate_found mate_real'.split()], cases=c08c, post=c08p, anchors=ENGINE_ANCHORS)
-    c09c, c09p = make_prop([lambda c, pl, t: interrupt_stream(c, pl, t, c.scale(24, 300), c.scale(90, 250))])
+                            lambda c, pl, t: multi_cycle_stream(c, pl, t, c.scale(10, 300)),
+                            lambda c, pl, t: descending_stream(c, pl, t, c.scale(40, 800))], minimax=True, extra_post=tt_post())
+    PROPS['C08'] = dict(modules=['Inkayaku.Props.C08', 'Inkayaku.Props.C08Sim', 'Inkayaku.Props.C08Transp', 'Inkayaku.Props.C16Pv'], theorems=['Inkayaku.C08Transp.' + n for n in 'transp13 transp22 sameDraft_le3 hashInj_of_noCollision_le3 go_eq_spec_le3'.split()] + ['Inkayaku.C08Sim.' + n for n in 'quiescence_sim repetition_inert fuel_adequate negamax_node_sim negamax_eq_spec go_eq_spec go_eq_spec_le2'.split()] + ['Inkayaku.C16Pv.mate_pv'] + ['Inkayaku.C08.' + n for n in 'quiescence_clamp quiescence_ok ab_ok root_exact order_irrelevant best_move_optimal ab_tt_ok root_exact_tt engine_order_is_permutation search_eq_mm specValue_eq_mm specValue_order_irrelevant specBestMoves_eq_optimal search_best_move_optimal mate_found mate_real'.split()], cases=c08c, post=c08p, anchors=ENGINE_ANCHORS)
+    c09c, c09p = make_prop([lambda c, pl, t: interrupt_stream(c, pl, t, c.scale(24, 300), c.scale(90, 250)),
+                            lambda c, pl, t: pending_stream(c, pl, t, c.scale(20, 300))])
     PROPS['C09'] = dict(modules=['Inkayaku.Props.C09'], theorems=['Inkayaku.C09.' + n for n in 'quiescence_board negamax_board deepen_board go_preserves_board go_preserves_inv session_preserves_board next_go_searches_same_position go_one_bestmove bestmove_from_last_completed_iteration bestmove_none_iff_no_completed_iteration'.split()] + ['Inkayaku.Search.boardLaws', 'Inkayaku.Search.unmake_make_of_generated', 'Inkayaku.Search.make_wf', 'Inkayaku.BoardCongr.make_congr', 'Inkayaku.BoardCongr.genPseudo_congr'], cases=c09c, post=c09p, anchors=ENGINE_ANCHORS)
     c16c, c16p = make_prop([lambda c, pl, t: multi_cycle_stream(c, pl, t, c.scale(60, 1500)),
                             lambda c, pl, t: terminal_after_search_stream(c, pl, t, c.scale(30, 600)),
                             lambda c, pl, t: promotion_stream(c, pl, t, c.scale(30, 600)),
-                            lambda c, pl, t: limits_stream(c, pl, t, c.scale(40, 800))],
+                            lambda c, pl, t: limits_stream(c, pl, t, c.scale(40, 800)),
+                            lambda c, pl, t: pending_stream(c, pl, t, c.scale(30, 500))],
                            binary_sessions=lambda c: c.scale(25, 600))
     c16all = lambda ctx: c16c(ctx) + console_cases(ctx, ctx.scale(1500, 40000))
     c16post = lambda ctx, cs, impl: c16p(ctx, cs, impl) + console_post(ctx, cs, impl)
-    PROPS['C16'] = dict(modules=['Inkayaku.Props.C16', 'Inkayaku.Props.C16Console', 'Inkayaku.Props.C16Pv'],
+    PROPS['C16'] = dict(modules=['Inkayaku.Props.C16', 'Inkayaku.Props.C16Console', 'Inkayaku.Props.C16Pv', 'Inkayaku.Props.C16Wf'],
                         theorems=['Inkayaku.C16.' + n for n in 'info_depth_mono info_nodes_mono info_time_mono info_time_is_clock bestmove_is_pv0_ponder_is_pv1 null_bestmove_no_ponder'.split()]
                         + ['Inkayaku.C16Console.' + n for n in 'render_accepts render_single_line empty_pv_rejected'.split()]
-                        + ['Inkayaku.C16Pv.' + n for n in 'pv_legal_line pv_legal_line_rules mate_pv'.split()],
+                        + ['Inkayaku.C16Pv.' + n for n in 'pv_legal_line pv_legal_line_rules mate_pv'.split()]
+                        + ['Inkayaku.C16Wf.' + n for n in 'engine_out_news engine_out_wf engine_pv_nonempty engine_moves_ok engine_lines_accepted engine_lines_single'.split()],
                         cases=c16all, post=c16post, anchors=ENGINE_ANCHORS)
     # C10: history part (props.py) + engine-level repetition / fifty-move sessions
     e10c, e10p = make_prop([lambda c, pl, t: repetition_stream(c, pl, t, c.scale(25, 500)), fifty_explicit,
-                            lambda c, pl, t: fifty_stream(c, pl, t, c.scale(40, 800))])
+                            lambda c, pl, t: fifty_stream(c, pl, t, c.scale(40, 800)),
+                            lambda c, pl, t: refen_stream(c, pl, t, c.scale(25, 500))])
     base10 = PROPS['C10']['cases']
     PROPS['C10']['cases'] = lambda ctx: base10(ctx) + e10c(ctx)
     PROPS['C10']['post'] = e10p
+    # C06: hashes on the board (props.py) + the hashes the search threads down the tree (table read-back under recomputed hashes)
+    e06c, e06p = make_prop([lambda c, pl, t: rejected_position_stream(c, pl, t, c.scale(30, 600)),
+                            lambda c, pl, t: tt_stream(c, pl, t, c.scale(10, 200))], extra_post=lambda ctx, cs, impl: tt_presence_post(ctx, cs, impl) + tt_post()(ctx, cs, impl))
+    base06, post06 = PROPS['C06']['cases'], PROPS['C06'].get('post')
+    PROPS['C06']['cases'] = lambda ctx: base06(ctx) + e06c(ctx)
+    PROPS['C06']['post'] = (lambda ctx, cs, impl: (post06(ctx, cs, impl) if post06 else []) + e06p(ctx, cs, impl))
     # C11: static evaluation (props.py) + searches of flip twins
     e11c, e11p = make_prop([lambda c, pl, t: flip_stream(c, pl, t, c.scale(60, 1500)),
                             lambda c, pl, t: mated_corpus_stream(c, pl, t, c.scale(40, 1000), maxk=1),
